@@ -3,6 +3,7 @@
   (first layer: allocation arithmetic, refusal for lack of blocks, reserved blocks, chains)
 -/
 import MotoModel.Proofs.DiskChain
+import MotoModel.Proofs.DiskPreserve
 namespace Moto.C05
 open Moto Moto.Disk
 
@@ -73,5 +74,99 @@ theorem written_chain_reads_back (bat : List Nat) (hlen : bat.length = 160) (n :
   rw [hfr] at hl hlt hnd ⊢
   simp only [List.getD_cons_zero]
   exact walk_linked _ first rest _ hu1 hu8 (by rw [linkChain_length]; exact hlen) hl hlt hnd
+
+end Moto.C05
+
+namespace Moto.C05
+open Moto Moto.Disk
+
+/-- **C05 (refused for lack of a catalog entry ⇒ table and catalog unchanged)**: when every
+    catalog entry of the side is taken, `writeFile` gives the blocks back: the allocation-table
+    sector and the fourteen catalog sectors are byte-identical to what they were, so the side has
+    the same free-block count, the same catalog and the same files. -/
+theorem refused_catalog_restores (sd sd' : Side) (bat : List Nat) (content : Bytes) (name ext : Str) (kind flag : Nat)
+    (hw : C11.WFSide sd) (hb : getBat sd = .ok bat)
+    (h40 : isFree (bat.getD 40 0) = false) (h41 : isFree (bat.getD 41 0) = false)
+    (h : writeFile sd content name ext kind flag = .raised (.valueError "no.more.space.in.catalog") sd') :
+    getSector sd' batTrack batSector = getSector sd batTrack batSector
+    ∧ ∀ s, 1 ≤ s → s ≤ 15 → getSector sd' batTrack s = getSector sd batTrack s := by
+  obtain ⟨hb1, hu1, hu8, hlb, hS, hsize, _⟩ := size_law content.length
+  have hblen := getBat_length sd bat hb
+  unfold writeFile at h
+  rw [hb] at h
+  simp only [writeFileWith] at h
+  split at h
+  · simp only [WriteResult.raised.injEq, PyErr.valueError.injEq] at h
+    exact absurd h.1 (by decide)
+  · rename_i hfit
+    generalize hfree : chosen bat (reqBlocks content.length) = free at h hfit
+    have hflen : free.length = reqBlocks content.length := by
+      have : free.length ≤ reqBlocks content.length := by rw [← hfree]; simp only [chosen]; exact List.length_take_le _ _
+      omega
+    have hnd : free.Nodup := hfree ▸ chosen_nodup bat _
+    have hlt : ∀ b ∈ free, b < 160 := fun b hb' => hblen ▸ (chosen_free bat _ b (hfree ▸ hb')).1
+    have hisfree : ∀ b ∈ free, isFree (bat.getD b 0) = true := fun b hb' => (chosen_free bat _ b (hfree ▸ hb')).2
+    have hnot4x : ∀ b ∈ free, b ≠ 40 ∧ b ≠ 41 := by
+      intro b hb'
+      have := hisfree b hb'
+      constructor
+      · intro e; subst e; rw [h40] at this; cases this
+      · intro e; subst e; rw [h41] at this; cases this
+    unfold placeFile at h
+    dsimp only at h
+    cases hf : findSlot _ _ with
+    | error err =>
+      rw [hf] at h
+      simp only [WriteResult.raised.injEq] at h
+      have := findSlot_error _ _ err hf
+      rw [this] at h; exact absurd h.1 (by decide)
+    | ok o =>
+      rw [hf] at h
+      cases o with
+      | some p => cases h
+      | none =>
+        simp only [WriteResult.raised.injEq, true_and] at h
+        rw [restore_table bat free _ hisfree] at h
+        subst h
+        -- sectors of track 20 are not data sectors of the chosen blocks
+        have hspec := (writeSectors_spec free hnd content (reqSectors content.length) 0 sd (by omega)
+          (fun j _ h2 => by
+            rw [hw.1]; unfold flatOf
+            have hj8 : j / 8 < free.length := by omega
+            have hm : free.getD (j / 8) 0 ∈ free := by
+              rw [List.getD_eq_getElem?_getD, List.getElem?_eq_getElem hj8]; simp
+            have := hlt _ hm
+            omega)).1
+        have huntouched : ∀ s, 1 ≤ s → s ≤ 15 →
+            getSector (writeSectors free content (reqSectors content.length) 0 sd) batTrack s = getSector sd batTrack s := by
+          intro s h1 h15
+          unfold getSector
+          apply hspec
+          intro j _ hj he
+          unfold flatOf at he
+          have hj8 : j / 8 < free.length := by omega
+          have hm : free.getD (j / 8) 0 ∈ free := by
+            rw [List.getD_eq_getElem?_getD, List.getElem?_eq_getElem hj8]; simp
+          have := hnot4x _ hm
+          unfold idx batTrack at he
+          have e16 : Gen.Disk.sectorsPerTrack = 16 := rfl
+          rw [e16] at he
+          have := Nat.mod_lt j (show 0 < 8 by omega)
+          omega
+        have hw1 : C11.WFSide (writeSectors free content (reqSectors content.length) 0 sd) := writeSectors_wf _ _ _ _ _ hw
+        have hb'len : (linkChain bat free (lastSectorsOf content.length)).length = 160 := by rw [linkChain_length]; exact hblen
+        have hun1 : getSector (writeSectors free content (reqSectors content.length) 0 sd) batTrack batSector
+            = getSector sd batTrack batSector := huntouched 1 (Nat.le_refl _) (by omega)
+        constructor
+        · rw [setBat_setBat_sector _ _ _ hw1 hb'len hblen, hun1]
+          exact getBat_sector sd bat hw hb
+        · intro s h1 h15
+          by_cases hs1 : s = 1
+          · subst hs1
+            show getSector _ batTrack batSector = getSector sd batTrack batSector
+            rw [setBat_setBat_sector _ _ _ hw1 hb'len hblen, hun1]
+            exact getBat_sector sd bat hw hb
+          · rw [setBat_other _ _ _ _ (by unfold idx batSector; omega), setBat_other _ _ _ _ (by unfold idx batSector; omega)]
+            exact huntouched s h1 h15
 
 end Moto.C05
